@@ -109,6 +109,8 @@ Definition parse_udec (s : bytes) : option N :=
 Definition int64_min : Z := (- 9223372036854775808)%Z.
 Definition int64_max : Z := 9223372036854775807%Z.
 Definition in_int64 (z : Z) : bool := (int64_min <=? z)%Z && (z <=? int64_max)%Z.
+(* int64 arithmetic wraps around *)
+Definition wrap64 (z : Z) : Z := ((z + 9223372036854775808) mod 18446744073709551616 - 9223372036854775808)%Z.
 
 (* strconv.ParseInt(s, 10, 64) == strconv.Atoi on 64-bit: optional sign, then
    decimal digits (no underscores in base 10), range-checked *)
